@@ -66,7 +66,7 @@ func names(tier int) []string {
 		"/srv/1234567890", "/srv/1234567890123456", "/srv/Foo", "/srv/foo", "/usr/lib/modules/6.1.0-1-amd64/kernel/x.ko", "/srv/:1.42/x", "/opt/1000/x",
 		"/srv/x86_64/y", "/etc/app/x.conf", "/var/lib/app/x", "/dev/dri/card0", "/srv/data/plain",
 		// characters that are pattern syntax in a rule but plain characters in a file name (the kernel logs them as they are)
-		"/srv/report[1].pdf", "/srv/{ec8030f7-c20a-464f-9b0e-13a3a9e97384}/x", `/srv/mnt-my\x2ddisk.mount`, "/srv/a*b", "/srv/a?b", "/srv/{a,b}", "/srv/end,", "/srv/mid,dle",
+		"/srv/report[1].pdf", "/srv/{ec8030f7-c20a-464f-9b0e-13a3a9e97384}/x", `/srv/mnt-my\x2ddisk.mount`, "/srv/a*b", "/srv/a?b", "/srv/{a,b}", "/srv/end,", "/srv/mid,dle", "/srv/x y{1}.conf", "/srv/a [b/c", "/srv/data,v[12]",
 		// a system directory name right below a directory that is itself rewritten to a variable; a directory called att
 		"/home/user/usr/bin/tool", "/home/user/usr/lib/libx.so.1", "/home/user/run/foo", "/home/user/proc/x", "/home/user/sys/x", "/run/proc/x", "/run/sys/x",
 		"/usr/etc/run/x", "/tmp/user/1000/proc/x", "/usr/share/att/logo/x.png", "/home/user/att/notes/x.txt", "/proc/one/x", "/srv/chroot/proc/one/status",
@@ -238,6 +238,9 @@ func main() {
 		w.Encode(process(fmt.Sprintf("file-blank-profile-%d", n), r))
 	}
 	others = append(others,
+		// records that carry a label= next to their profile= (the label of the credentials / of the queue): the rule belongs to the profile
+		mk("io_uring", "apparmor", "DENIED", "operation", "uring_override", "class", "io_uring", "profile", "prog", "label", "other-creds", "comm", "prog", "requested", "override_creds", "denied", "override_creds"),
+		mk("mqueue", "apparmor", "DENIED", "operation", "open", "class", "posix_mqueue", "profile", "prog", "label", "queue-owner", "name", "/queue3", "comm", "prog", "requested", "read", "denied", "read"),
 		mk("mount", "apparmor", "DENIED", "operation", "mount", "class", "mount", "profile", "prog", "name", "/media/USB DISK/", "comm", "prog", "fstype", "vfat", "srcname", "/dev/sdb1", "flags", "rw, nosuid"),
 		mk("umount", "apparmor", "DENIED", "operation", "umount", "class", "mount", "profile", "prog", "name", "/media/USB DISK/", "comm", "prog"),
 		mk("pivotroot", "apparmor", "DENIED", "operation", "pivotroot", "class", "mount", "profile", "prog", "name", "/srv/new root/", "comm", "prog", "srcname", "/srv/new root/old/"),
